@@ -346,7 +346,17 @@ _public_ int m_map_put(m_map_t *m, const char *key, void *value) {
     M_PARAM_ASSERT(value);
     
     /* Find a place to put our value */
-    return hashmap_put(m, m->flags & M_MAP_KEY_DUP ? mem_strdup(key) : key, value);
+    if (m->flags & M_MAP_KEY_DUP) {
+        const char *dup_key = mem_strdup(key);
+        const size_t len = m->length;
+        int ret = hashmap_put(m, dup_key, value);
+        if (ret != 0 || len == m->length) {
+            /* Put refused, or value updated: entry keeps its old key; our copy is unused */
+            memhook._free((void *)dup_key);
+        }
+        return ret;
+    }
+    return hashmap_put(m, key, value);
 }
 
 /*
